@@ -15,6 +15,9 @@ Theorems : FinVerif/Props/C12.lean on the hand model of crr_tree_val (Model/C12.
            initial value, body and flat subscript of the hand model is the generated one; the nest of generated loops on flat
            arrays returns the hand model's root value for every step count (crr_price_is_generated_loops); no out-of-range
            subscript, int() casts exact; put-call parity / American >= European of the generated program.
+           Props/C12f.lean (GENERATED Gen/FdLoopR.lean = finite_difference.py read row-wise / loop-wise by registry/fdloops.py):
+           the rows of dx / dxx / calculate_fd_matrix and the time loop of black_scholes_fd (range, American test, projection
+           comparison, step count, dt, matrix arguments, guards) of the hand model Model/C12FD are the generated ones.
 Tie      : crr_tree_val (compiled, both parities), calculate_fd_matrix, fd_roll_backwards, black_scholes_fd, PSOR,
            black_scholes_fd_PSOR, _fcall, _fput, baw_value (S* from the same newton_secant call), FXVanillaOption AMERICAN
            (crr_tree_val_avg at t_exp) vs the Lean models at Float (compiled driver c12driver) on seeded inputs.
@@ -36,8 +39,8 @@ from floatcmp import f2b, b2f  # noqa: E402
 from parallel import driver_parallel  # noqa: E402,F401
 import exedriver  # noqa: E402
 
-GEN = ['BSF', 'BSP', 'BAWF', 'BAWP', 'CrrLoopR']      # CrrLoopR (registry/crrloops.py): the LOOPS of crr_tree_val; BAWF / BAWP (tools/py2lean/registry/baw.py) import the Black-Scholes kernels BSF / BSP
-PROPS = ['FinVerif.Props.C12', 'FinVerif.Props.C12b', 'FinVerif.Props.C12c', 'FinVerif.Props.C12d', 'FinVerif.Props.C12e']
+GEN = ['BSF', 'BSP', 'BAWF', 'BAWP', 'CrrLoopR', 'FdLoopR']      # CrrLoopR (registry/crrloops.py): the LOOPS of crr_tree_val; BAWF / BAWP (tools/py2lean/registry/baw.py) import the Black-Scholes kernels BSF / BSP
+PROPS = ['FinVerif.Props.C12', 'FinVerif.Props.C12b', 'FinVerif.Props.C12c', 'FinVerif.Props.C12d', 'FinVerif.Props.C12e', 'FinVerif.Props.C12f']
 DRIVERS = ['FinVerif.Driver.C12']
 
 RULE = ('seeded parameter sets: S/K in [0.3,3] (half of them in [0.7,1.4]), t in {0.1,0.25,0.5,1,2}, r in '
